@@ -141,6 +141,53 @@ Theorem c06_numa_capacity : forall o ops,
 Proof. exact hist_capacity. Qed.
 Print Assumptions c06_numa_capacity.
 
+(* ---- informer events (podEventHandler: watch events, re-list tombstones, ForgetPod hook) ---- *)
+(* the handler turns every event into the resourceManager call that realises the property's
+   reading of the event (Spec.event_effect, decided from the event's content alone) *)
+Theorem c06_event_effect : forall e,
+  match handle_event e with
+  | Some (ORelease u) => event_effect e = EDead u
+  | Some (OUpdate p) => event_effect e = ELive p /\ palloc_empty p = false
+  | Some _ => False
+  | None => event_effect e = ENone
+  end.
+Proof. exact handle_event_effect. Qed.
+Print Assumptions c06_event_effect.
+
+(* over every history of scheduler calls and informer events the ledger equals the from-scratch
+   sum over the pods it records, and those pods are exactly the live pods recomputed from the
+   history (Spec.live_next: the bookkeeping the decision procedure judges the implementation by) *)
+Theorem c06_ledger_events : forall o hs,
+  wf_opts o -> Forall item_wf hs ->
+  ledger_exact (irun o hs) /\ l_pods (irun o hs) = live_hist o l_init [] hs.
+Proof. exact ihist_ledger_live. Qed.
+Print Assumptions c06_ledger_events.
+
+(* a deletion reported by a watch event, by the tombstone of a re-list, or by the ForgetPod hook
+   removes the pod: it is no longer recorded and the ledger is the sum over the remaining pods *)
+Theorem c06_delete_event_forgets : forall o st e,
+  wf_opts o -> linv st -> palloc_wf (ev_pod e) ->
+  ev_is_deletion e = true -> ev_assigned e = true ->
+  let st' := fst (istep o st (IEvent e)) in
+  l_pods st' = pods_del (l_pods st) (p_uid (ev_pod e))
+  /\ find_pod (p_uid (ev_pod e)) (l_pods st') = None
+  /\ (forall i, ref_in (l_cpus st') i = ref_of_pods (pods_del (l_pods st) (p_uid (ev_pod e))) i)
+  /\ (forall nd, lookup_res nd (l_numa st') = numa_of_pods (pods_del (l_pods st) (p_uid (ev_pod e))) nd).
+Proof. exact event_delete_forgets. Qed.
+Print Assumptions c06_delete_event_forgets.
+
+(* sharing limit and NUMA capacity over histories that also contain informer events which do not
+   restore an allocation from outside (deletes, tombstones, terminated / unassigned pods, ignored) *)
+Theorem c06_sharing_limit_events : forall o hs,
+  wf_opts o -> Forall item_sched hs -> within_limit (o_maxref o) (irun o hs).
+Proof. exact ihist_limit. Qed.
+Print Assumptions c06_sharing_limit_events.
+
+Theorem c06_numa_capacity_events : forall o hs,
+  wf_opts o -> nres_nonneg (o_cap o) -> Forall item_sched hs -> within_capacity o (irun o hs).
+Proof. exact ihist_capacity. Qed.
+Print Assumptions c06_numa_capacity_events.
+
 (* ---- NUMA split ---- *)
 Theorem c06_numa_exact : forall kind k req hav got,
   distribute1 kind k req hav = (got, 0) ->
@@ -206,6 +253,15 @@ Example c06_ex_hist :
   Forall op_sched [OAlloc (mkR 1 4 true 1 false 0 (Some [0; 1]) 4000 8 [] []); ORelease 1;
                    OAlloc (mkR 2 2 true 2 true 1 None 2000 0 [] [])].
 Proof. exact ex_hist_sched. Qed.
+Example c06_ex_event_hist :
+  let o := mkO overshoot_topo 1 [] true [] in
+  let hs := [IOp (OAlloc (mkR 1 4 true 1 false 0 None 4000 0 [] []));
+             IEvent (mkEv 3 true false false false (mkP 1 [] 0 []));
+             IOp (OAlloc (mkR 2 4 true 1 false 0 None 4000 0 [] []))] in
+  Forall item_sched hs
+  /\ map p_uid (l_pods (irun o hs)) = [2]
+  /\ map p_uid (l_pods (irun o (firstn 1 hs))) = [1].
+Proof. exact ex_event_hist. Qed.
 Example c06_ex_uniform : uniform_topo overshoot_topo = true /\ wf_topo overshoot_topo = true.
 Proof. exact ex_uniform. Qed.
 Example c06_ex_d1 : distribute1 0 1 8 [(1, 10); (2, 2)] = ([(2, 2); (1, 6)], 0).
